@@ -16,7 +16,7 @@ from .common import set_interrupts, COMPONENTS_BASE, run_sim, new_sim, finish_ou
 
 PID = "C11"
 LEVEL = "exploration"
-BUDGET = {"quick": 60000, "thorough": 1500000}
+BUDGET = {"quick": 250000, "thorough": 5000000}
 RULE = (
     "each run draws maxsize in {None,0,1,2,3}, 2..4 tasks with 1..3 ops each over {call key, cache_clear, "
     "cache_discard key, cache_info} on 1..3 keys, a wrapped coroutine suspending 1..2 times per invocation, "
